@@ -154,6 +154,9 @@ def bounded(ctx, b):
         CaptionSet({"en-US": CaptionList([Caption((2 * j + 1) * US, (2 * j + 2) * US, [T(t)]) for j, t in enumerate(
             ["Press A --> B to continue", "-->", "a --> b --> c", "write &lt; for less", "&amp;lt; twice", "R&D <dept>", "<v Bob> said",
              "{sighs} I know.", "it's \"q\"", "&#XE9; &#1114112;", "x < y > z & w"])])}),
+        # every pair of metacharacters next to each other, inside a sentence (";>" , "&;", "<;", ...)
+        CaptionSet({"en-US": CaptionList([Caption((2 * j + 1) * US, (2 * j + 2) * US, [T(f"He winked {x}{y} and left {y}{x}{y}")])
+                                          for j, (x, y) in enumerate(itertools.product("&<>;#'-", repeat=2))])}),
         # consecutive breaks / an empty line inside a cue
         CaptionSet({"en-US": CaptionList([Caption(1000000, 2000000, [T("a"), BR(), BR(), T("b")]), Caption(3000000, 4000000, [T("c"), BR(), T(""), BR(), T("d")]),
                                           Caption(5000000, 6000000, [T("last")])])}),
